@@ -5,6 +5,7 @@
    All quantifiers are unbounded: base sizes, prices, coins are arbitrary N (also >= 2^64: no range premise
    is needed), outputs have arbitrary address lengths, bundles, datum and script sizes; fee figures and
    the bundles packed into change outputs are universally quantified oracle arguments. *)
+From CSL Require Num.Value Builder.Totals Builder.Change Builder.ChangeProofs MinAda.ChangeInstance.
 From CSL Require Import Base.Prelude Base.U64 Cbor.Head Cbor.HeadProofs
   Codec.Schema Ledger.Schemas MinAda.OutputSize MinAda.MinAda MinAda.Change MinAda.MinAdaProofs MinAda.ChangeProofs MinAda.SchemaTie MinAda.TxSize.
 Local Open Scope N_scope.
@@ -184,6 +185,38 @@ Theorem C07_change_outputs_meet_min :
      all_ok cfg outs' = true).
 Proof. split; intros; [eapply change_ada_only_invariant | eapply change_assets_repaired_invariant]; eauto. Qed.
 Print Assumptions C07_change_outputs_meet_min.
+
+(* the same on C05's FULL model of add_change_if_needed (Builder/Change.v: value arithmetic, bundle packing, every
+   branch), for ANY oracle whose min-ADA and value-size answers are the concrete MinAda model (fee, transaction-size and
+   selection answers and the oracle's own state are arbitrary): a successful add_change leaves every output of the
+   builder within the limits, measured on the REAL addresses (ce_addr) -- although every calculator of the change
+   code prices the fake 57-byte address *)
+Theorem C07_change_on_builder_model :
+  forall (O : Type) (orc : @Change.oracle O) (e : ChangeInstance.cenv),
+  ChangeInstance.sizes_exact e orc ->
+  forall (fuel : nat) (addr extra : N) (s : Totals.state) (o : O) (b : bool),
+  ChangeInstance.all_ok e s ->
+  Change.out_res (Change.add_change orc fuel addr extra s o) = Ok b ->
+  ChangeInstance.all_ok e (Change.out_st (Change.add_change orc fuel addr extra s o)).
+Proof. intros O orc e SE fuel addr extra s o b. apply ChangeInstance.add_change_all_ok. exact SE. Qed.
+Print Assumptions C07_change_on_builder_model.
+
+(* instance: the fully concrete oracle (MinAda calculator, OutputSize value size, TxSize transaction size, linear fee)
+   meets C05's premises (its answers are u64) and the exactness premise above, so C05's conservation theorem and the
+   limits hold together on it *)
+Theorem C07_concrete_oracle_instance : forall (e : ChangeInstance.cenv),
+  ChangeProofs.oracle_u64 (ChangeInstance.c07_oracle e) /\
+  ChangeInstance.sizes_exact e (ChangeInstance.c07_oracle e) /\
+  (forall fuel addr extra s b,
+     Totals.state_wf s -> ChangeInstance.all_ok e s ->
+     Change.out_res (Change.add_change (ChangeInstance.c07_oracle e) fuel addr extra s tt) = Ok b ->
+     let s' := Change.out_st (Change.add_change (ChangeInstance.c07_oracle e) fuel addr extra s tt) in
+     ChangeInstance.all_ok e s' /\ ChangeProofs.balanced s').
+Proof.
+  intros e. split; [apply ChangeInstance.c07_oracle_u64|]. split; [apply ChangeInstance.c07_oracle_sizes_exact|].
+  intros fuel addr extra s b W A R. exact (ChangeInstance.add_change_concrete e fuel addr extra s b W A R).
+Qed.
+Print Assumptions C07_concrete_oracle_instance.
 
 (* the code before the repair: the top-up of the last output after its admission breaks the value-size limit
    on MAINNET parameters, and the minimum for a change address longer than 57 bytes *)
